@@ -89,6 +89,9 @@ func specName(s string, kind int) bool {
 
 func evalC03(c string) Result {
 	f := strings.Split(c, " ")
+	if f[0] == "std.idna" {
+		return evalIdna(f)
+	}
 	s := string(unhx(f[1]))
 	var err error
 	class := "label"
@@ -283,6 +286,8 @@ func genC03(rng *rand.Rand, tier string) (cases []string) {
 		}
 		cases = append(cases, pick(rng, ops...)+" "+hx([]byte(s))+" "+toASCIIField(s))
 	}
+	// the model of idna.ToASCII itself against the real function (c03idna.go)
+	cases = append(cases, genIdnaCases(rng, tier)...)
 	return cases
 }
 
@@ -290,6 +295,9 @@ func genC03(rng *rand.Rand, tier string) (cases []string) {
 // oracle field is recomputed.
 func candsC03(c string) (res []string) {
 	f := strings.Split(c, " ")
+	if f[0] == "std.idna" {
+		return candsIdna(c)
+	}
 	s := string(unhx(f[1]))
 	var vs []string
 	labels := strings.Split(s, ".")
